@@ -126,7 +126,8 @@ def rule_order(ctx: Ctx) -> None:
     ctx.check(A.dotted(upd[0].target.slice) == sv, "C15.2", "predecessor time is kept per source", pe, upd[0].stmt, "prev[source] = ...",
               "predecessor bookkeeping is not per source")
     if pushes:
-        txt = ast.unparse(pushes[0])
+        from .. import norm as N
+        txt = N.canon(N.expand(pe, pushes[0]))
         ctx.check(f"event={ev}" in txt and f"self._event_handlers.get({sv}, [])" in txt, "C15.2", "an event goes to the handlers of its own source",
                   pe, pushes[0], "ok", "event/handlers pairing changed")
 
